@@ -1,4 +1,252 @@
 package main
 
-// runScans: whole-package frame/fragment obligations (C13, C19); see scan.go implementation below.
-func runScans(p *Program, db *SpecDB, prop string) []*FuncResult { return nil }
+import (
+	"fmt"
+	"go/types"
+	"sort"
+	"strings"
+
+	"golang.org/x/tools/go/ssa"
+)
+
+// Package-wide frame clauses, checked on the SSA of every function of the library packages
+// (not only the functions under contract):
+//
+//	C13  "deterministic": the function stays inside the deterministic fragment of Go
+//	     (no map iteration, select, goroutines, channel operations, pointer->integer conversion,
+//	     no calls into time, math/rand, os, sync, runtime).
+//	C19  "assigns no package state": no store reaches a package-level variable outside init,
+//	     and no package-level variable has its address taken into a value that could be written through.
+//
+// Each function yields one obligation per clause; a violated clause names the instruction.
+
+var bannedPkgs = map[string]bool{"time": true, "math/rand": true, "math/rand/v2": true, "os": true, "sync": true, "sync/atomic": true, "runtime": true, "crypto/rand": true, "os/signal": true, "syscall": true}
+
+func scanObl(key, kind, name, text, pos string, ok bool, detail string) *Obligation {
+	o := &Obligation{Name: name, Kind: "scan", Func: key, Text: text, Expect: "unsat", Pos: pos, Backend: "ssa-scan", Goal: "true"}
+	if ok {
+		o.Result = "unsat"
+	} else {
+		o.Result = "sat"
+		o.Detail = detail
+	}
+	return o
+}
+
+func runScans(p *Program, db *SpecDB, prop string) []*FuncResult {
+	if prop != "C13" && prop != "C19" {
+		return nil
+	}
+	var out []*FuncResult
+	fns := append([]*ssa.Function{}, p.AllFns...)
+	// anonymous functions and init functions are not in AllFns' name index: add them
+	seen := map[*ssa.Function]bool{}
+	for _, f := range fns {
+		seen[f] = true
+	}
+	var addAnon func(f *ssa.Function)
+	addAnon = func(f *ssa.Function) {
+		for _, a := range f.AnonFuncs {
+			if !seen[a] {
+				seen[a] = true
+				fns = append(fns, a)
+				addAnon(a)
+			}
+		}
+	}
+	for _, f := range append([]*ssa.Function{}, fns...) {
+		addAnon(f)
+	}
+	for _, sp := range p.SPkgs {
+		if f := sp.Func("init"); f != nil && !seen[f] {
+			seen[f] = true
+			fns = append(fns, f)
+		}
+	}
+	sort.Slice(fns, func(i, j int) bool { return shortName(fns[i]) < shortName(fns[j]) })
+	for _, fn := range fns {
+		if fn.Origin() != nil {
+			continue // generic instances share the origin's body
+		}
+		key := shortName(fn)
+		r := &FuncResult{Key: key + "#scan", Kind: "scan", Tags: p.Tags}
+		switch prop {
+		case "C13":
+			ok, detail, pos := scanDeterministic(p, fn)
+			r.Obls = append(r.Obls, scanObl(key, "scan", key+"/deterministic", "function stays inside the deterministic fragment (no map range, select, go, channel ops, pointer->integer conversion, time/rand/os/sync calls)", pos, ok, detail))
+		case "C19":
+			ok, detail, pos := scanNoPackageState(p, fn)
+			r.Obls = append(r.Obls, scanObl(key, "scan", key+"/assigns-no-package-state", "no store reaches a package-level variable (outside init) and no package-level variable escapes by address", pos, ok, detail))
+		}
+		out = append(out, r)
+	}
+	if prop == "C19" {
+		// the package-level variables themselves: immutable kinds only
+		r := &FuncResult{Key: "globals#scan", Kind: "scan", Tags: p.Tags}
+		for _, sp := range p.SPkgs {
+			var names []string
+			for n, m := range sp.Members {
+				if _, ok := m.(*ssa.Global); ok {
+					names = append(names, n)
+				}
+			}
+			sort.Strings(names)
+			for _, n := range names {
+				g := sp.Members[n].(*ssa.Global)
+				if strings.HasPrefix(n, "init$") {
+					continue
+				}
+				t := g.Type().(*types.Pointer).Elem()
+				ok := immutableKind(t)
+				r.Obls = append(r.Obls, scanObl("globals", "scan", fmt.Sprintf("global/%s.%s/immutable-kind", sp.Pkg.Name(), n), "package-level variable has a value kind that cannot be mutated in place (integer, bool, string, reflect.Type)", p.pos(g.Pos()), ok, "type "+t.String()))
+			}
+		}
+		out = append(out, r)
+	}
+	return out
+}
+
+func immutableKind(t types.Type) bool {
+	switch u := under(t).(type) {
+	case *types.Basic:
+		return true
+	case *types.Interface:
+		// reflect.Type values are immutable descriptors
+		return strings.HasSuffix(t.String(), "reflect.Type")
+	default:
+		_ = u
+		return false
+	}
+}
+
+func scanDeterministic(p *Program, fn *ssa.Function) (bool, string, string) {
+	for _, b := range fn.Blocks {
+		for _, ins := range b.Instrs {
+			bad := ""
+			switch x := ins.(type) {
+			case *ssa.Range:
+				if _, ok := under(x.X.Type()).(*types.Map); ok {
+					bad = "iteration over a map (order is randomised)"
+				}
+			case *ssa.Select:
+				bad = "select statement"
+			case *ssa.Go:
+				bad = "goroutine start"
+			case *ssa.Send:
+				bad = "channel send"
+			case *ssa.MakeChan:
+				bad = "channel creation"
+			case *ssa.UnOp:
+				if x.Op.String() == "<-" {
+					bad = "channel receive"
+				}
+			case *ssa.Convert:
+				if classOf(x.X.Type()) == CUPtr {
+					if b, ok := under(x.Type()).(*types.Basic); ok && b.Info()&types.IsInteger != 0 {
+						bad = "conversion of a pointer to an integer (address-dependent value)"
+					}
+				}
+			case ssa.CallInstruction:
+				if c := x.Common().StaticCallee(); c != nil {
+					if pk := fnPkg(c); pk != nil && bannedPkgs[pk.Path()] {
+						bad = "call into package " + pk.Path() + " (" + c.Name() + ")"
+					}
+				}
+			}
+			if bad != "" {
+				return false, bad, p.pos(ins.Pos())
+			}
+		}
+	}
+	return true, "", p.pos(fn.Pos())
+}
+
+// rootGlobal follows an address computation back to a package-level variable.
+func rootGlobal(v ssa.Value, depth int) *ssa.Global {
+	return rootGlobalV(v, map[ssa.Value]bool{})
+}
+
+func rootGlobalV(v ssa.Value, seen map[ssa.Value]bool) *ssa.Global {
+	if seen[v] {
+		return nil
+	}
+	seen[v] = true
+	depth := 0
+	_ = depth
+	switch x := v.(type) {
+	case *ssa.Global:
+		return x
+	case *ssa.FieldAddr:
+		return rootGlobalV(x.X, seen)
+	case *ssa.IndexAddr:
+		return rootGlobalV(x.X, seen)
+	case *ssa.ChangeType:
+		return rootGlobalV(x.X, seen)
+	case *ssa.Convert:
+		return rootGlobalV(x.X, seen)
+	case *ssa.Slice:
+		return rootGlobalV(x.X, seen)
+	case *ssa.Phi:
+		for _, e := range x.Edges {
+			if g := rootGlobalV(e, seen); g != nil {
+				return g
+			}
+		}
+	}
+	return nil
+}
+
+func scanNoPackageState(p *Program, fn *ssa.Function) (bool, string, string) {
+	isInit := fn.Name() == "init" || strings.HasPrefix(fn.Name(), "init#")
+	for _, b := range fn.Blocks {
+		for _, ins := range b.Instrs {
+			bad := ""
+			switch x := ins.(type) {
+			case *ssa.Store:
+				if g := rootGlobal(x.Addr, 0); g != nil && !isInit {
+					bad = "store to package-level variable " + g.Name()
+				}
+				if g := rootGlobal(x.Val, 0); g != nil {
+					bad = "address of package-level variable " + g.Name() + " is stored"
+				}
+			case *ssa.MapUpdate:
+				if u, ok := x.Map.(*ssa.UnOp); ok {
+					if g := rootGlobal(u.X, 0); g != nil && !isInit {
+						bad = "update of package-level map " + g.Name()
+					}
+				}
+			case ssa.CallInstruction:
+				for _, a := range x.Common().Args {
+					if g := rootGlobal(a, 0); g != nil {
+						bad = "address of package-level variable " + g.Name() + " is passed to a call"
+					}
+				}
+				if bi, ok := x.Common().Value.(*ssa.Builtin); ok && (bi.Name() == "append" || bi.Name() == "copy" || bi.Name() == "delete") && !isInit {
+					if len(x.Common().Args) > 0 {
+						if u, ok := x.Common().Args[0].(*ssa.UnOp); ok {
+							if g := rootGlobal(u.X, 0); g != nil {
+								bad = bi.Name() + " on package-level variable " + g.Name()
+							}
+						}
+					}
+				}
+			case *ssa.MakeClosure:
+				for _, bnd := range x.Bindings {
+					if g := rootGlobal(bnd, 0); g != nil {
+						bad = "address of package-level variable " + g.Name() + " is captured by a closure"
+					}
+				}
+			case *ssa.Return:
+				for _, r := range x.Results {
+					if g := rootGlobal(r, 0); g != nil {
+						bad = "address of package-level variable " + g.Name() + " is returned"
+					}
+				}
+			}
+			if bad != "" {
+				return false, bad, p.pos(ins.Pos())
+			}
+		}
+	}
+	return true, "", p.pos(fn.Pos())
+}
